@@ -191,6 +191,19 @@ FindLabelOutcomes(st, name) ==
 PointerDestinationsOutcomes(st) ==
   { Out(ResVal(SortSeq(SetToSeq({ st.ptrs[i][2] : i \in 1..Len(st.ptrs) }), LAMBDA x, y : x < y)), 0, st) }
 
+\* assert_equal_regions(self, other = self, source_start, other_start, length): cell by cell (step 4) the two
+\* regions must hold the same string, a pointer on both or on neither, the same labels and - where the source cell
+\* holds neither string nor pointer - the same raw word.  Any cell outside the archive makes the call fail.
+CellsEqual(st, x, y) ==
+  /\ HasKey(st.text, x) = HasKey(st.text, y) /\ (HasKey(st.text, x) => Get(st.text, x) = Get(st.text, y))
+  /\ HasKey(st.ptrs, x) = HasKey(st.ptrs, y)
+  /\ HasKey(st.labels, x) = HasKey(st.labels, y) /\ (HasKey(st.labels, x) => Get(st.labels, x) = Get(st.labels, y))
+  /\ (~HasKey(st.text, x) /\ ~HasKey(st.ptrs, x)) => SubSeq(st.data, x + 1, x + 4) = SubSeq(st.data, y + 1, y + 4)
+EqualRegionsOutcomes(st, a, b, len) ==
+  LET offs == { k \in 0..(len - 1) : k % 4 = 0 }
+  IN IF \A k \in offs : InCell(st, a + k) /\ InCell(st, b + k) /\ CellsEqual(st, a + k, b + k)
+     THEN { Out(ResUnit, 0, st) } ELSE { ErrOut(st) }
+
 \* ------------------------------------------------------------------ stream cursors (BinStreams)
 \* A stream call is the positional call at the cursor.  On success the cursor advances by the width of a
 \* value access (label accesses: 0); after a failure the cursor is not constrained, the archive unchanged.
@@ -224,6 +237,7 @@ Outcomes(st, ev) ==
     [] ev.op = "get_labels"      -> GetLabelsOutcomes(st)
     [] ev.op = "find_label"      -> FindLabelOutcomes(st, ev.bs)
     [] ev.op = "pointer_destinations" -> PointerDestinationsOutcomes(st)
+    [] ev.op = "equal_regions"   -> EqualRegionsOutcomes(st, ev.a, ev.t, ev.n)
     [] ev.op = "s_read_label"    -> { [o EXCEPT !.pos = IF o.res.ok THEN ev.a ELSE AnyPos] : o \in ReadLabelAtOutcomes(st, ev.a, ev.n) }
     \* writer-side allocate: appends when the cursor is at the end, inserts otherwise; the cursor stays
     [] ev.op = "s_allocate"      -> { [o EXCEPT !.pos = IF o.res.ok THEN ev.a ELSE AnyPos] :
